@@ -657,6 +657,9 @@ Definition m_trlog_se3_mat {T} (O : ops T) (Tm : M44 T) := trlog_se3_mat O C03_t
 Definition m_trexp2_so2 {T} (O : ops T) (w : T) := res_opt (trexp2_so2 O C03_thr w).
 Definition m_trexp2_se2 {T} (O : ops T) (tw : V3 T) := res_opt (trexp2_se2 O C03_thr tw).
 Definition m_trexp2_se2_th {T} (O : ops T) (tw : V3 T) (th : T) := res_opt (trexp2_se2_th O C03_thr tw th).
+(* the vector-theta branch of Twist3.exp / Twist2.exp on a single twist: element t of theta gives trexp(S * t) *)
+Definition m_twist3_exp_theta {T} (O : ops T) (tw : V6 T) (t : T) := res_opt (twist3_exp_elem O C03_thr tw t).
+Definition m_twist2_exp_theta {T} (O : ops T) (tw : V3 T) (t : T) := res_opt (twist2_exp_elem O C03_thr tw t).
 Definition m_trlog2_so2 {T} (O : ops T) (Rm : M22 T) : T := trlog2_so2 O Rm.
 Definition m_trlog2_se2_tw {T} (O : ops T) (Tm : M33 T) := trlog2_se2_tw O C03_thr Tm.
 """
@@ -983,6 +986,27 @@ def build(ctx, K):
             sampler=C('trexp2_se2', S['se2']()), tol=tol)
     g.model('m_trexp2_se2_th', [('tw', 'V3'), ('th', 'S')], 'O:M33', coq='m_trexp2_se2_th', module=M,
             num_fn=lambda tw, th: base.trexp2(tw, th), sampler=C('trexp2_se2_th', S['se2_th']()), tol=tol)
+    def tw3_kinds(rng):
+        u_ = axis(rng)
+        u_, v_ = u_ / np.linalg.norm(u_), trans(rng)
+        k = rng.integers(5)
+        tw_ = [np.r_[v_, u_], np.r_[v_, u_ * log_uniform(rng, 1e-3, 3.0)], np.r_[u_, 0, 0, 0], np.r_[u_ * log_uniform(rng, 1e-3, 1e3), 0, 0, 0],
+               np.r_[v_, axis(rng) * log_uniform(rng, 1e-9, 1e-3)]][k]
+        t_ = [0.0, 1.0, float(rng.uniform(-6, 6)), float(rng.choice([-1.0, 1.0]) * log_uniform(rng, 1e-9, 1e-2)), float(rng.uniform(-400, 400))][rng.integers(5)]
+        return [tw_, t_]
+
+    def tw2_kinds(rng):
+        v_ = np.zeros(2) if rng.random() < 0.15 else rand_unit(rng, 2) * log_uniform(rng, 1e-6, 1e6)
+        k = rng.integers(4)
+        tw_ = [np.r_[v_, rng.choice([-1.0, 1.0])], np.r_[v_, rng.uniform(-3, 3)], np.r_[rand_unit(rng, 2), 0.0], np.r_[rand_unit(rng, 2) * log_uniform(rng, 1e-3, 1e3), 0.0]][k]
+        t_ = [0.0, 1.0, float(rng.uniform(-6, 6)), float(rng.choice([-1.0, 1.0]) * log_uniform(rng, 1e-9, 1e-2)), float(rng.uniform(-400, 400))][rng.integers(5)]
+        return [tw_, t_]
+    g.model('m_twist3_exp_theta', [('tw', 'V6'), ('t', 'S')], 'O:M44', coq='m_twist3_exp_theta', module=M,
+            num_fn=lambda tw, t: Twist3(tw).exp([t, 0.5 * t])[0].A, sampler=tw3_kinds, tol=tol,
+            note='class method, vector-theta branch on a single twist')
+    g.model('m_twist2_exp_theta', [('tw', 'V3'), ('t', 'S')], 'O:M33', coq='m_twist2_exp_theta', module=M,
+            num_fn=lambda tw, t: Twist2(tw).exp(np.array([0.5 * t, t]))[1].A, sampler=tw2_kinds, tol=tol,
+            note='class method, vector-theta branch on a single twist')
     g.model('m_trlog2_so2', [('R', 'M22')], 'S', coq='m_trlog2_so2', module=M,
             num_fn=with_np(lambda R: base.trlog2(R, check=False, twist=True)), sampler=C('trlog2_so2', S['R2']()), tol=tol)
     g.model('m_trlog2_se2_tw', [('T', 'M33')], 'V3', coq='m_trlog2_se2_tw', module=M,
@@ -1348,6 +1372,130 @@ def oracle(ctx, K):
             same('Twist2.SE2', lambda: Twist2(tw2).SE2().A, T2, rp)
             same('Twist2.exp:theta', lambda: Twist2(tw2).exp(k).A, base.trexp2(tw2 * k), dict(rp, theta=k))
 
+    # ------------------------------------------------------------------ class-level exponentials: every argument form
+    def class_exp_grid(n):
+        """Twist3.exp / Twist2.exp: theta form {None, float, int, numpy scalar, list, tuple, ndarray, length-1 list, per-twist}
+        x twist kind {unit revolute, general screw (non-unit), unit prismatic, non-unit prismatic, sub-threshold rotation}
+        x {one twist, several twists} x units {rad, deg}; SE3/SO3/SE2/SO2.Exp: every documented argument form.  Each
+        returned element must equal trexp / trexp2 of the SCALED twist (the base function is tied to the Coq model by T-num
+        and checked against the 50-digit reference above); a few cells are compared with the reference directly."""
+        import io
+        import contextlib
+
+        def quiet_call(key, f, rp):
+            try:
+                with contextlib.redirect_stdout(io.StringIO()), np.errstate(all='ignore'):
+                    return f()
+            except Exception as ex:
+                ctx.fail(f'oracle:class-exp:{key}:raises:{type(ex).__name__}', f"{key} raises {type(ex).__name__}: {ex}", rp)
+                return None
+
+        def compare(key, X, want, rp, scale_of=lambda M: 1.0):
+            ctx.count('oracle:class-exp:' + key)
+            got = [np.asarray(x.A, float) for x in X] if X is not None else None
+            if got is None:
+                return
+            if len(got) != len(want):
+                ctx.fail(f'oracle:class-exp:{key}:wrong-length', f"{key}: {len(got)} values returned, {len(want)} expected", dict(rp, got_len=len(got), want_len=len(want)))
+                return
+            for i, (a, b) in enumerate(zip(got, want)):
+                sc = max(1.0, float(np.max(np.abs(b))))
+                if maxerr(a, b) > 1e-12 * sc:
+                    ctx.fail(f'oracle:class-exp:{key}:differs-from-exp-of-scaled-twist',
+                             f"{key}: element {i} differs from the exponential of theta[{i}] * S by {maxerr(a, b):.3g}",
+                             dict(rp, element=i, got=a.tolist(), want=b.tolist()))
+                    return
+
+        def kinds3():
+            u_, v_ = axis(rng), trans(rng)
+            u_ = u_ / np.linalg.norm(u_)
+            return {'revolute-unit': np.r_[v_, u_], 'screw-nonunit': np.r_[v_, u_ * log_uniform(rng, 1e-2, 3.0)],
+                    'prismatic-unit': np.r_[u_, 0, 0, 0], 'prismatic-nonunit': np.r_[u_ * log_uniform(rng, 1e-2, 1e3), 0, 0, 0],
+                    'negligible-rotation': np.r_[rand_unit(rng) * log_uniform(rng, 1e-2, 1e2), axis(rng) * rng.uniform(0, 0.4) * K['k_zero'] * EPS]}
+
+        def kinds2():
+            v_ = rand_unit(rng, 2) * log_uniform(rng, 1e-3, 1e3)
+            return {'revolute-unit': np.r_[v_, rng.choice([-1.0, 1.0])], 'revolute-nonunit': np.r_[v_, rng.uniform(-3, 3)],
+                    'prismatic-unit': np.r_[rand_unit(rng, 2), 0.0], 'prismatic-nonunit': np.r_[v_, 0.0]}
+
+        def theta_forms(m):
+            """forms valid for an object holding m twists: name -> (argument, list of per-element multipliers or None)"""
+            a, b = float(rng.uniform(-3, 3)), int(rng.integers(-3, 4))
+            vec = rng.uniform(-3, 3, size=3 if m == 1 else m)
+            vec[int(rng.integers(len(vec)))] = 0.0 if rng.random() < 0.3 else vec[0]
+            forms = {'none': (None, None), 'float': (a, [a]), 'int': (b, [float(b)]), 'numpy-scalar': (np.float64(a), [a]),
+                     'list': (list(map(float, vec)), list(vec)), 'tuple': (tuple(map(float, vec)), list(vec)), 'ndarray': (vec.copy(), list(vec)),
+                     'length-1-list': ([a], [a]), 'length-1-ndarray': (np.array([a]), [a])}
+            return forms
+
+        def expected(tws, mult, to_rad, ex):
+            if mult is None:
+                return [ex(t) for t in tws]
+            mult = [to_rad(x) for x in mult]
+            if len(tws) == 1:
+                return [ex(tws[0] * x) for x in mult]
+            if len(mult) == 1:
+                return [ex(t * mult[0]) for t in tws]
+            return [ex(t * x) for t, x in zip(tws, mult)]
+
+        for it in range(n):
+            for dim, Tw, kinds, ex, ref in ((3, Twist3, kinds3(), base.trexp, skewa_np), (2, Twist2, kinds2(), base.trexp2, skewa2_np)):
+                names = list(kinds)
+                for kn in names:
+                    tw = kinds[kn]
+                    for units, to_rad in (('rad', lambda x: x), ('deg', math.radians)):
+                        for fn_, (arg, mult) in theta_forms(1).items():
+                            rp = {'law': 'class exp = exp of the scaled twist', 'class': Tw.__name__, 'twist_hex': HX(tw), 'twist_kind': kn,
+                                  'theta_form': fn_, 'theta': repr(arg), 'units': units}
+                            ctx.case(('class-exp', dim, kn, fn_, units, tuple(tw)))
+                            key = f'Twist{dim}.exp:theta-{fn_}:single'
+                            X = quiet_call(key, (lambda: Tw(tw).exp(arg, units=units)) if arg is not None else (lambda: Tw(tw).exp(units=units)), rp)
+                            want = expected([tw], mult, to_rad, ex)
+                            compare(key, X, want, rp)
+                            if it == 0 and fn_ == 'ndarray' and units == 'rad' and X is not None:
+                                for i, x in enumerate(mult):
+                                    check(f'class-exp:Twist{dim}.exp:theta-ndarray:vs-expm', X[i].A, ref_expm(ref(tw * x)), max(1.0, abs(x) * float(np.linalg.norm(tw[:dim]))), rp, tol=1e-9)
+                # several twists in one object (mixed kinds)
+                tws = [kinds[k] for k in names[:3]]
+                for fn_, (arg, mult) in theta_forms(3).items():
+                    rp = {'law': 'class exp, several twists', 'class': Tw.__name__, 'twists_hex': [HX(t) for t in tws], 'theta_form': fn_, 'theta': repr(arg)}
+                    key = f'Twist{dim}.exp:theta-{fn_}:multi'
+                    X = quiet_call(key, (lambda: Tw(tws).exp(arg)) if arg is not None else (lambda: Tw(tws).exp()), rp)
+                    compare(key, X, expected(tws, mult, lambda x: x, ex), rp)
+                    # .SE3() / .SE2() = exp()
+                if dim == 3:
+                    compare('Twist3.SE3:multi', quiet_call('Twist3.SE3:multi', lambda: Twist3(tws).SE3(), {}), [ex(t) for t in tws], {'twists_hex': [HX(t) for t in tws]})
+                else:
+                    compare('Twist2.SE2:multi', quiet_call('Twist2.SE2:multi', lambda: Twist2(tws).SE2(), {}), [ex(t) for t in tws], {'twists_hex': [HX(t) for t in tws]})
+            # ---- Exp constructors, every documented argument form
+            k3 = kinds3()
+            for kn, tw in k3.items():
+                rp = {'law': 'Exp forms', 'twist_hex': HX(tw), 'twist_kind': kn}
+                T_, T2_ = base.trexp(tw), base.trexp(tw * 0.5)
+                for fn_, f in (('list', lambda: SE3.Exp(list(map(float, tw)))), ('tuple', lambda: SE3.Exp(tuple(map(float, tw)))), ('ndarray', lambda: SE3.Exp(tw.copy())),
+                               ('column', lambda: SE3.Exp(tw.reshape(6, 1))), ('se3-matrix', lambda: SE3.Exp(skewa_np(tw)))):
+                    compare(f'SE3.Exp:{fn_}', quiet_call(f'SE3.Exp:{fn_}', f, rp), [T_], rp)
+                for fn_, f in (('Nx6-ndarray', lambda: SE3.Exp(np.array([tw, tw * 0.5]))), ('list-of-vectors', lambda: SE3.Exp([tw, tw * 0.5])),
+                               ('list-of-matrices', lambda: SE3.Exp([skewa_np(tw), skewa_np(tw * 0.5)]))):
+                    compare(f'SE3.Exp:{fn_}', quiet_call(f'SE3.Exp:{fn_}', f, rp), [T_, T2_], rp)
+                w_ = tw[3:] if np.linalg.norm(tw[3:]) > 1e-6 else tw[:3]
+                R_, R2_ = base.trexp(w_), base.trexp(w_ * 0.5)
+                for fn_, f in (('list', lambda: SO3.Exp(list(map(float, w_)))), ('ndarray', lambda: SO3.Exp(w_.copy())), ('so3-matrix', lambda: SO3.Exp(skew_np(w_)))):
+                    compare(f'SO3.Exp:{fn_}', quiet_call(f'SO3.Exp:{fn_}', f, rp), [R_], rp)
+                compare('SO3.Exp:Nx3-ndarray', quiet_call('SO3.Exp:Nx3-ndarray', lambda: SO3.Exp(np.array([w_, w_ * 0.5]), so3=False), rp), [R_, R2_], rp)
+            for kn, tw in kinds2().items():
+                rp = {'law': 'Exp forms 2D', 'twist_hex': HX(tw), 'twist_kind': kn}
+                T_, T2_ = base.trexp2(tw), base.trexp2(tw * 0.5)
+                for fn_, f in (('list', lambda: SE2.Exp(list(map(float, tw)))), ('tuple', lambda: SE2.Exp(tuple(map(float, tw)))), ('ndarray', lambda: SE2.Exp(tw.copy())),
+                               ('se2-matrix', lambda: SE2.Exp(skewa2_np(tw)))):
+                    compare(f'SE2.Exp:{fn_}', quiet_call(f'SE2.Exp:{fn_}', f, rp), [T_], rp)
+                for fn_, f in (('list-of-vectors', lambda: SE2.Exp([tw, tw * 0.5])), ('list-of-matrices', lambda: SE2.Exp([skewa2_np(tw), skewa2_np(tw * 0.5)]))):
+                    compare(f'SE2.Exp:{fn_}', quiet_call(f'SE2.Exp:{fn_}', f, rp), [T_, T2_], rp)
+                a_ = float(tw[2]) if tw[2] != 0 else 0.7
+                for fn_, f in (('float', lambda: SO2.Exp(a_)), ('length-1-list', lambda: SO2.Exp([a_])), ('so2-matrix', lambda: SO2.Exp(np.array([[0, -a_], [a_, 0]])))):
+                    compare(f'SO2.Exp:{fn_}', quiet_call(f'SO2.Exp:{fn_}', f, rp), [base.trexp2([a_])], rp)
+                compare('SO2.Exp:list-of-angles', quiet_call('SO2.Exp:list-of-angles', lambda: SO2.Exp([a_, a_ * 0.5]), rp), [base.trexp2([a_]), base.trexp2([a_ * 0.5])], rp)
+
     # ------------------------------------------------------------------ aliasing / poisoning of returned arrays
     def alias():
         """every exp/log entry point must return a fresh array: not sharing memory with an argument or with an earlier
@@ -1499,6 +1647,7 @@ def oracle(ctx, K):
     logexp3(ctx.n(2000, 60000))
     two_d(ctx.n(1200, 40000))
     classes(ctx.n(150, 3000))
+    class_exp_grid(ctx.n(6, 120))
     alias()     # last: if an entry point leaks shared state, poisoning it would falsify everything after it
     for br in ('identity', 'half-turn', 'general'):
         if not ctx.stats.get('hit:explog3:' + br):
